@@ -131,7 +131,8 @@ func vfRunScenario(t *testing.T, rec *vfRec, sc map[string]any) {
 	}
 	rec.emit("reset", "id", id, "mode", mode, "unicast", vfBool(cfg, "unicast", false),
 		"min", min0, "max", max0, "cfglife", life0,
-		"fwd", vfBool(cfg, "fwd", true), "nif", nif, "quiet", vfBool(cfg, "quiet", false))
+		"fwd", vfBool(cfg, "fwd", true), "nif", nif, "quiet", vfBool(cfg, "quiet", false),
+		"base_ms", rec.origin.UnixMilli())
 
 	vm := vfNewMetrics(w)
 	mm := NewMetrics(vm, "vf", time.Time{}, st, parsed.Interfaces)
@@ -277,6 +278,19 @@ func vfRunScenario(t *testing.T, rec *vfRec, sc map[string]any) {
 			case "na":
 				m = &ndp.NeighborAdvertisement{TargetAddress: netip.MustParseAddr("fe80::2")}
 			case "ra":
+				if spec := vfMap(st, "spec"); len(spec) > 0 {
+					// A scripted RA (C18), optionally passed through the codec.
+					ra := vfBuildRA(spec)
+					if vfBool(st, "wire", false) {
+						rt, err := vfRoundTrip(ra)
+						if err != nil {
+							panic(err)
+						}
+						ra = rt
+					}
+					m = ra
+					break
+				}
 				// Another router's RA: ours after a wire round trip, optionally
 				// with one header field changed.
 				var own *ndp.RouterAdvertisement
